@@ -257,15 +257,22 @@ pub fn make_pools(rng: &mut Rng) -> Pools {
     let mut a2 = a;
     let li = rng.usize(4);
     a2[li] = refm::fadd(a2[li], 1);
+    if rng.bool() {
+        // differs from `a` by an algebraically structured vector
+        a2 = refm::add4(&a, &refm::structured_delta(rng));
+    }
     accounts.push(a2);
     accounts.push([rng.felt(), rng.felt(), rng.felt(), rng.felt()]);
-    accounts.push([0, 0, 0, 1]);
+    accounts.push(if rng.bool() { [0, 0, 0, 1] } else { refm::structured_delta(rng) });
     let mut nullifiers = vec![];
     let nl = edgy(rng);
     nullifiers.push(nl);
     let mut nl2 = nl;
     let li = rng.usize(4);
     nl2[li] = refm::fadd(nl2[li], 1);
+    if rng.bool() {
+        nl2 = refm::add4(&nl, &refm::structured_delta(rng));
+    }
     nullifiers.push(nl2);
     for _ in 0..4 {
         nullifiers.push([rng.felt_edgy(), rng.felt_edgy(), rng.felt(), rng.felt()]);
@@ -281,10 +288,15 @@ pub fn make_pools(rng: &mut Rng) -> Pools {
     let mut b2 = b1;
     let li = rng.usize(4);
     b2[li] = refm::fadd(b2[li], 1);
+    if rng.bool() {
+        b2 = refm::add4(&b1, &refm::structured_delta(rng));
+    }
     if b2 == [0; 4] {
         b2[0] = 5;
     }
-    let blocks = vec![(b1, rng.u32() as u64), (b2, rng.u32() as u64), ([0, 0, 1, 0], 7)];
+    // third block: a hash "close to" the all-zero dummy sentinel
+    let b3 = if rng.bool() { [0, 0, 1, 0] } else { refm::structured_delta(rng) };
+    let blocks = vec![(b1, rng.u32() as u64), (b2, rng.u32() as u64), (b3, 7)];
     Pools {
         accounts,
         nullifiers,
